@@ -230,6 +230,19 @@ def linger(started=None, seconds=40):
     return 'lingering'
 
 
+def linger_then_raise(x=None, seconds=25):
+    """the work fails on its first input (the worker announces its death) but a non-daemon thread keeps the child process alive afterwards
+    (until the file named by VERIF_ESCAPE appears)"""
+    escape = os.environ.get('VERIF_ESCAPE')
+
+    def keep():
+        end = time.monotonic() + seconds
+        while time.monotonic() < end and not (escape and os.path.exists(escape)):
+            time.sleep(0.02)
+    threading.Thread(target=keep).start()
+    raise ValueError('failing after leaving a thread behind')
+
+
 def hold_until(path, value=None):
     """cooperative: waits until the file exists, then returns"""
     while not os.path.exists(path):
